@@ -120,7 +120,7 @@ ACTIONS = ["BusChange", "Forge", "Emit", "Lookup", "Read", "InitTake", "Subscrib
 def key_owner(m, obs):
     ex = m.get("explained_by") or []
     if ex:
-        return "%s:%s" % (m["what"], "+".join(sorted(ex)))
+        return "%s:%s" % ("+".join(sorted(ex)), m["what"])      # explained by a named deviation of the spec
     # class of failing input: clause + stream mode + whether an ownership claim (genuine / forged) is in the history
     ks = {e["k"] for e in obs.get("evs", [])}
     return "%s:%s:%s" % (m["what"], obs.get("mode"), "+".join(sorted(ks & {"noc", "forge", "nocother"})) or "plain")
